@@ -458,6 +458,18 @@ async fn run(case: &Val) -> Val {
                 let e = w.conn.pending.get(&FAM).map(|p| p.is_empty()).unwrap_or(true);
                 out.push(Val::L(vec![Val::n(5), Val::b(e)]));
             }
+            10 => {
+                let (t, reachable) = (op.at(1).u32(), op.at(2).bool());
+                tables.update_nexthop_validity(
+                    IpAddr::V4(Ipv4Addr::new(10, 2, 0, 1 + t as u8)),
+                    reachable,
+                );
+            }
+            11 => {
+                // the stale marking of unregister_peer (the source is not the observed neighbour)
+                tables.unregister_peer(srcs[op.at(1).usize()].remote_addr, &[], &[FAM]);
+            }
+            12 => tables.drop_stale_families(srcs[op.at(1).usize()].remote_addr, &[FAM]),
             9 => {
                 let p = if op.at(1).u32() == 0 {
                     if cfg.at(5).bool() {
@@ -485,7 +497,7 @@ async fn run(case: &Val) -> Val {
             }
             _ => panic!("verif: bad op"),
         }
-        if code <= 3 {
+        if code <= 3 || (10..=12).contains(&code) {
             // what the table emitted
             let mut batch = Vec::new();
             while let Ok(ev) = spy.try_recv() {
